@@ -653,14 +653,65 @@ class FnTranslator:
                     lines.append(line + tag)
             code[b] = lines
         order = [b for b in fn.blocks if b in reach]
+        s.sunk = collections.defaultdict(list); s.sunk_names = set()
+        if s.opts.get('sink_locals') and s.loops:
+            s.sink_locals(code, phis)
         body = s.emit_region(order, set(order), None, code, 1)
         ps = ', '.join('%s %s' % (em.ctype(t), s.lname(n)) for t, n in fn.params)
         if fn.varargs: die("varargs definition")
         hdr = '%s %s(%s)' % (em.ctype(fn.ret), san(fn.name), ps or 'void')
         decls = []
         for v, ty in s.decls:
+            if s.lname(v) in s.sunk_names: continue
             decls.append('  %s %s;' % (em.ctype(ty), s.lname(v)))
         return hdr, decls, body
+
+    def sink_locals(s, code, phis):
+        """opts.sink_locals: a local (SSA temporary, or a stack slot together with its address variable) every occurrence of which
+        lies inside one natural loop is declared at the top of that loop's body instead of at the top of the function.  Under a loop
+        contract the two are equivalent (the local would be in the loop's frame and havocked at the loop head; it now is a fresh
+        nondeterministic object per iteration); for an unwound loop it over-approximates (a value carried between iterations is lost).
+        phi homes, parameters and every identifier that the unit's contracts.h / harness.c mention are never sunk."""
+        ident = re.compile(r'\b(t\d+|v_[A-Za-z0-9_]+)\b')
+        keep = set(s.opts.get('_keep_idents') or ())
+        for moves in phis.values():
+            for dst, _ in moves: keep.add(dst)
+        occ = collections.defaultdict(set); init_line = {}
+        for b, lines in code.items():
+            for i, ln in enumerate(lines):
+                ln2 = re.sub(r'/\*.*?\*/', '', ln)
+                mm = re.fullmatch(r'\s*(\w+) = &(\w+);\s*', ln2)
+                if mm and s.allocas.get(mm.group(1)) == mm.group(2):
+                    init_line[mm.group(1)] = (b, i); continue
+                for m_ in ident.finditer(ln2): occ[m_.group(1)].add(b)
+        slot_of = dict(s.allocas); ptr_of = {v: k for k, v in s.allocas.items()}
+        ctype = {s.lname(v): s.em.ctype(ty) for v, ty in s.decls}
+        def innermost(blocks):
+            best = None
+            for h, body in s.loops.items():
+                if blocks <= body and (best is None or len(body) < len(s.loops[best])): best = h
+            return best
+        kill = set()
+        for v, ty in s.decls:
+            c = s.lname(v)
+            if c in keep or c in s.sunk_names: continue
+            if c in ptr_of: continue                       # slots are handled with their address variable
+            if c in slot_of:
+                sl = slot_of[c]
+                if sl in keep or c not in init_line: continue
+                blocks = occ.get(c, set()) | occ.get(sl, set())
+                if not blocks: continue
+                h = innermost(blocks)
+                if h is None: continue
+                s.sunk[h].append('%s %s; %s %s = &%s;' % (ctype[sl], sl, ctype[c], c, sl))
+                s.sunk_names |= {c, sl}; kill.add(init_line[c])
+            else:
+                blocks = occ.get(c, set())
+                if not blocks: continue
+                h = innermost(blocks)
+                if h is None: continue
+                s.sunk[h].append('%s %s;' % (ctype[c], c)); s.sunk_names.add(c)
+        for b, i in kill: code[b][i] = '/* sunk: ' + re.sub(r'/\*.*?\*/', '', code[b][i]).strip() + ' */'
 
     def blk(s, ref):
         b = ref[1:] if ref[0] == '%' else ref
@@ -729,11 +780,12 @@ class FnTranslator:
                 out.append('L_%s_pre: ;' % hl)
                 out.append(ind + 'while (1)')
                 asg = set().union(*[s.assigned[x] for x in lb]) | set().union(*[s.mentions[x] for x in lb])
-                asg = sorted(asg)
+                asg = sorted(a for a in asg if a not in s.sunk_names)
                 out.append('#ifndef LOOPASG_%s__%s\n#define LOOPASG_%s__%s\n#endif' % (fname, hl, fname, hl))
                 out.append(ind + '__CPROVER_assigns(%s LOOPASG_%s__%s)' % (', '.join(asg) if asg else 'VERIF_dummy_', fname, hl))
                 out.append('#ifdef LOOP_%s__%s\nLOOP_%s__%s\n#endif' % (fname, hl, fname, hl))
                 out.append(ind + '{')
+                for d in s.sunk.get(b, []): out.append(ind + '  ' + d + '   /* declared in the loop: no occurrence outside it */')
                 out += s.emit_region(order, lb, b, code, depth + 1)
                 out.append('L_%s_cont: ;' % hl)
                 out.append(ind + '}')
@@ -1074,6 +1126,12 @@ def translate(path, cfg):
     # callees whose body the proofs do not see (stubs, library functions off the verbatim list) may write through any pointer
     opaque = set(stubs) | set(f for f in m.funcs if STD_RE.search(f) and not any(v.search(f) for v in verb))
     opts['_pw'] = ParamWrites(m, opaque, cfg.get('stub_writes'))
+    if opts.get('sink_locals') and cfg.get('dir'):
+        ktxt = ''
+        for fn_ in ('contracts.h', 'harness.c'):
+            kp = os.path.join(cfg['dir'], fn_)
+            if os.path.exists(kp): ktxt += open(kp).read()
+        opts['_keep_idents'] = set(re.findall(r'\b(t\d+|v_[A-Za-z0-9_]+)\b', ktxt))
     todo = list(reversed(roots)); done = collections.OrderedDict()
     protos = collections.OrderedDict()
     all_globals = set()
@@ -1147,8 +1205,13 @@ def translate(path, cfg):
         gl.append('%s G_%s;  /* initializer dropped */' % (em.ctype(ty), san(g)))
     sigs = []
     for f, (hdr, decls, body) in done.items(): sigs.append(hdr + ';')
+    def stub_ty(t):
+        # unit option stub_void_ptrs: pointers to structs in the prototypes of contract stubs become void* (the stubs cast where they look inside)
+        if cfg.get('stub_void_ptrs') and isinstance(t, PtrTy) and isinstance(t.to, (NamedTy, LitStructTy)): return 'void*'
+        return em.ctype(t)
     for f, (ret, ps) in protos.items():
-        sigs.append('%s %s(%s);' % (em.ctype(ret), san(f), ', '.join(em.ctype(t) for t in ps) or 'void'))
+        if f in stubs: sigs.append('%s %s(%s);' % (stub_ty(ret), san(f), ', '.join(stub_ty(t) for t in ps) or 'void'))
+        else: sigs.append('%s %s(%s);' % (em.ctype(ret), san(f), ', '.join(em.ctype(t) for t in ps) or 'void'))
     aliases = []
     for name, spec in (cfg.get('aliases') or {}).items():
         aliases.append('#define %s %s' % (name, em.ctype(resolve_alias(em, m, spec))))
